@@ -46,6 +46,25 @@ CHECKS = {
         "correspondence, value of real ncon/einsum for every contraction order vs dense reference, fkron vs NumPy Jordan-Wigner matrices and CAR.",
    note=TB + "Planner invariance is validated per network, not proved for all networks. Two genuine planner defects are recorded as known findings.",
    technique="Lean 4 proof (sign algebra) + translation validation of planner output + dense oracles", design="§5 C05"),
+ "C07": dict(
+   cat="proof",
+   text="36 Lean theorems: operator tables REGENERATED from yastn/operators/*.py each run (17 class x symmetry tables, exact entries incl. sqrt2) with on-site (anti)commutation "
+        "relations per family and symmetry closed by kernel evaluation; parse_2site_bonds specification for all N; graded_commute, measure2_reversed_sign, strings absent for "
+        "bosons; term_eq_ordered_product_partial: the user-order product equals signCanonicalOrder x the stably sorted product for repeated sites and any f_map (built on C05's "
+        "inversion theorem). Tie: generate_mpo (Hterm lists, f_map, LaTeX Generator) vs an independent NumPy Jordan-Wigner sum and vs the Lean mpoRule; measure_1site/2site(every "
+        "pattern)/nsite, rdm, sample probabilities on integer MPS vs dense expectation values.",
+   note=TB + "The sign-free merge of the sorted product into on-site operators times strings is covered by the three-way correspondence, not proved. rdm's leg convention is the one "
+        "observed on the unchanged tree (recorded as assumption). D8 (zero on-site product) is a known finding.",
+   technique="Lean 4 proof over translator-generated operator tables + dense Jordan-Wigner oracle", design="§5 C07"),
+ "C08": dict(
+   cat="proof",
+   text="14 Lean theorems: gauge state machine (pC, key set, per-site gauge) for every N and every program incl. error branches; canonize_ clears the centre; accumulate = "
+        "1 - prod(1-d_k^2) with unit range/permutation invariance/monotonicity; nested_projection_error in a real inner-product space (the folded number IS the relative distance "
+        "squared and the kept norm); gauge_preserves_state under a QR contract. Tie: call-sequence traces (incl. illegal calls) on real MPS/MPO vs the model; dense oracles after "
+        "every gauge move (state, norm/factor, isometry, Schmidt values, entropy) and for binding truncation (largest values kept, returned weight == dense distance, per-cut weights "
+        "refolded exactly by the model).",
+   note=TB + "QR/SVD are contracts validated numerically; that a local truncation acts as a nested projector is a hypothesis validated per cut; norm_eq over a whole chain is partial.",
+   technique="Lean 4 proof (state machine, fold, nested projections) + trace correspondence + dense oracles", design="§5 C08"),
  "C13": dict(
    cat="proof",
    text="34 Lean theorems about an exact model of truncation_mask (two-stage block/global selection, strict >, per-sector dictionaries): limits respected, "
